@@ -1221,7 +1221,7 @@ def gen_gap_loop(rng):
     gd = renumber_random(rng, gd) if rng.random() < 0.6 else gd
     # the input game's T_max is ~1/eps (1e4 .. 1e8) only because of the returning action, which a correct solve discards after a few
     # sweeps: budgets derived from T_max would cost minutes per non-terminating case, so this class carries its own sweep cap
-    gd["_sweep_cap"] = 30000
+    gd["_sweep_cap"] = 8000
     return gd
 
 
